@@ -6,19 +6,35 @@ Model: Part 3 of `RaftVerif/Model/SegLog.lean` (`FileSt`, `Disk`, `Step`, `scrip
 `PowerImg`, `reopen`).  A crash "after `k` micro-steps of operation `op` in state `s`" is the disk
 `runSteps d ((script s op).take k)`; the process-kill image is `killImg` of it, the power-loss
 images are all `img` with `PowerImg disk img` (durable or volatile header per file, every unit that
-differs between the durable and the volatile image arbitrary).  `killImg d` is one of the
-`PowerImg d` images (`kill_is_power`), so the power-loss theorem subsumes the kill theorem.
+differs between the durable and the volatile image arbitrary: old, new, torn or absent).
+`killImg d` is one of the `PowerImg d` images (`kill_is_power`), so `power_consistent` subsumes
+`kill_consistent`.
 
-File-system assumptions (recorded in the model header): `create`/`truncate`/`remove`/`fsync` are
-durable on return (no directory fsync needed), 8-byte header stores are not torn, `msync(MS_SYNC)`
-makes the whole mapping durable.
+ASSUMPTIONS (file-system model; everything below is relative to them)
+ * `os.Rename` and `os.Remove` of a directory entry are atomic and durable when the call returns;
+   in particular no fsync of the directory is needed (the code does none).
+ * `f.Sync()` / `msync(MS_SYNC)` make the whole file / mapping durable when they return.
+ * An aligned 8-byte header store into the mapping is not torn.
+ * Between two msyncs ANY subset of the dirty bytes may reach the disk (the model is even more
+   adversarial: every unit = entry data + its end-offset slot that differs between the durable and
+   the volatile image is arbitrary in a power-loss image).
+ * The directory model holds the `*.log` files only.  `createSegment` (repaired) builds the file as
+   `<n>.log.tmp` and renames it; `segments()` globs `*.log`, so a tmp file in progress or left by a
+   crash is invisible to `Open`.  A leftover tmp file is truncated (`O_TRUNC`) by the next
+   `createSegment` of the same name; otherwise it only costs disk space (≤ SegmentSize per crash).
+ * The directory contains exactly the chain of the log at operation boundaries (`Rep`): the file a
+   roll-over / `Reset` / emptied `RemoveGTE` creates does not exist yet.  (Stale `*.log` files can
+   only come from outside the two crash models; `openSegments` removes at most ONE dangling file
+   per `Open` — modelled in `reopen`, exercised by the engine's junk directories, outside C14.)
+ * Indices and sizes do not overflow 64 bits; `Open` is called with `SegmentSize ≥ 1024`
+   (`Options.validate`), which is `Op.valid` for `closeOpen`.
+ * A crash DURING `Open` itself (its `createSegment` of `0.log` on an empty directory, its removal
+   of one dangling file) is not a separate operation of the model; with the repaired create
+   sequence such a crash leaves the directory unchanged or complete.
 
-RESULT.  The full statement `C14_statement` is FALSE for the code as it is
-(`C14_counterexample`): `createSegment` first creates the file with length 0 and only then
-truncates it to `SegmentSize`; a crash between the two leaves a zero-length `<n>.log`, and
-`log.Open` fails on it for ever (`mmap` of length 0: EINVAL).  Everything else is proved:
-`power_consistent_partial` / `kill_consistent_partial` are `C14_statement` with exactly that one
-crash point excluded (`¬ ZeroLen disk`).
+HISTORY.  Before the repair of `createSegment` (it created `<n>.log` with length 0 and truncated
+it afterwards) the statement was false: see `prefix_create_counterexample`
+(finding `seglog-zero-length-segment-after-create`).
 -/
 namespace Raft.SL
 
@@ -47,17 +63,16 @@ def C14_statement : Prop :=
 
 /-- Per-state form ("for every `Inv` state, every operation, every micro-step prefix"). -/
 theorem power_consistent_state {s : SegLog} {d : Disk} (h : Inv s) (hr : Rep s d) (op : Op) (k : Nat)
-    (hz : ¬ ZeroLen (runSteps d ((script s op).take k)))
     {img : Img} (hp : PowerImg (runSteps d ((script s op).take k)) img) {ss' : Nat} (hss : 1024 ≤ ss') :
     ∃ s' img', reopen img ss' = .ok (s', img') ∧ Inv s' ∧ CrashSpec s (abs (s.run [op])) (abs s') :=
-  crashState_reopen h ((op_crash h hr op).1 _ (reach_take k)) hz hp hss
+  crashState_reopen h ((op_crash h hr op).1 _ (reach_take k)) hp hss
 
 /-- The same for the process-kill image. -/
 theorem kill_consistent_state {s : SegLog} {d : Disk} (h : Inv s) (hr : Rep s d) (op : Op) (k : Nat)
-    (hz : ¬ ZeroLen (runSteps d ((script s op).take k))) {ss' : Nat} (hss : 1024 ≤ ss') :
+    {ss' : Nat} (hss : 1024 ≤ ss') :
     ∃ s' img', reopen (killImg (runSteps d ((script s op).take k))) ss' = .ok (s', img') ∧ Inv s' ∧
       CrashSpec s (abs (s.run [op])) (abs s') :=
-  power_consistent_state h hr op k hz (kill_is_power _) hss
+  power_consistent_state h hr op k (kill_is_power _) hss
 
 /-- After a COMPLETED operation the directory represents the model state again, which is what
 lets the per-state theorems apply at every point of every program. -/
@@ -65,43 +80,43 @@ theorem rep_preserved {s : SegLog} {d : Disk} (h : Inv s) (hr : Rep s d) (op : O
     Inv (s.run [op]) ∧ Rep (s.run [op]) (runSteps d (script s op)) :=
   ⟨op_inv h hv, (op_crash h hr op).2⟩
 
-/-- `power_consistent` (partial): `C14_statement` with the zero-length-file crash point excluded.
-What is missing for the full statement is exactly `C14_counterexample`. -/
-theorem power_consistent_partial :
-    ∀ (ss : Nat) (ops : List Op) (op : Op) (k : Nat) (ss' : Nat) (img : Img),
-    1024 ≤ ss → 1024 ≤ ss' → (∀ o ∈ ops, o.valid) → op.valid →
-    ¬ ZeroLen (crashDisk ss ops op k) →
-    PowerImg (crashDisk ss ops op k) img →
-    ∃ s' img', reopen img ss' = .ok (s', img') ∧ Inv s' ∧
-      CrashSpec ((SegLog.empty ss).run ops) (abs (((SegLog.empty ss).run ops).run [op])) (abs s') := by
-  intro ss ops op k ss' img hss hss' hv _ hz hp
+/-- C14, full statement: every power-loss image at every micro-step of every operation of every
+program reopens to a well-formed log meeting the crash specification. -/
+theorem C14 : C14_statement := by
+  intro ss ops op k ss' img hss hss' hv _ hp
   obtain ⟨r1, r2, r3⟩ := runBoth_spec (inv_empty hss) (rep_empty ss) ops hv
   rw [← r3]
-  exact power_consistent_state r1 r2 op k hz hp hss'
+  exact power_consistent_state r1 r2 op k hp hss'
 
-/-- `kill_consistent` (partial): the process-kill image at every micro-step of every operation of
-every program, except the zero-length-file point. -/
-theorem kill_consistent_partial :
+/-- `power_consistent`: `C14_statement` spelled out (power-loss model). -/
+theorem power_consistent :
+    ∀ (ss : Nat) (ops : List Op) (op : Op) (k : Nat) (ss' : Nat) (img : Img),
+    1024 ≤ ss → 1024 ≤ ss' → (∀ o ∈ ops, o.valid) → op.valid →
+    PowerImg (crashDisk ss ops op k) img →
+    ∃ s' img', reopen img ss' = .ok (s', img') ∧ Inv s' ∧
+      CrashSpec ((SegLog.empty ss).run ops) (abs (((SegLog.empty ss).run ops).run [op])) (abs s') :=
+  C14
+
+/-- `kill_consistent`: the process-kill image at every micro-step of every operation of every
+program. -/
+theorem kill_consistent :
     ∀ (ss : Nat) (ops : List Op) (op : Op) (k : Nat) (ss' : Nat),
     1024 ≤ ss → 1024 ≤ ss' → (∀ o ∈ ops, o.valid) → op.valid →
-    ¬ ZeroLen (crashDisk ss ops op k) →
     ∃ s' img', reopen (killImg (crashDisk ss ops op k)) ss' = .ok (s', img') ∧ Inv s' ∧
       CrashSpec ((SegLog.empty ss).run ops) (abs (((SegLog.empty ss).run ops).run [op])) (abs s') :=
-  fun ss ops op k ss' hss hss' hv hop hz =>
-    power_consistent_partial ss ops op k ss' _ hss hss' hv hop hz (kill_is_power _)
+  fun ss ops op k ss' hss hss' hv hop => C14 ss ops op k ss' _ hss hss' hv hop (kill_is_power _)
 
-/-- `partial_entry_never_exposed`: at every crash point (zero-length point excluded) and for every
-file, whichever header value a reopen may read (volatile or durable), every unit (entry bytes +
-end offset) below it is present and identical in the durable and in the volatile image, i.e. it
-was covered by an msync before the header that exposes it was stored.  Together with
-`power_consistent_partial` (reopen never answers `Err.corrupt`) this is "partially written entries
-are never exposed". -/
+/-- `partial_entry_never_exposed`: at every crash point and for every file, whichever header value
+a reopen may read (volatile or durable), every unit (entry bytes + end offset) below it is present
+and identical in the durable and in the volatile image, i.e. it was covered by an msync before the
+header that exposes it was stored.  Together with `power_consistent` (reopen never answers
+`Err.corrupt`) this is "partially written entries are never exposed". -/
 theorem partial_entry_never_exposed (ss : Nat) (ops : List Op) (op : Op) (k : Nat)
-    (hss : 1024 ≤ ss) (hv : ∀ o ∈ ops, o.valid) (hz : ¬ ZeroLen (crashDisk ss ops op k)) :
+    (hss : 1024 ≤ ss) (hv : ∀ o ∈ ops, o.valid) :
     ∀ qf ∈ crashDisk ss ops op k, ∀ u, (u < qf.2.vhdr ∨ u < qf.2.dhdr) →
       ∃ b, qf.2.dunits[u]? = some b ∧ qf.2.vunits[u]? = some b := by
   obtain ⟨r1, r2, _⟩ := runBoth_spec (inv_empty hss) (rep_empty ss) ops hv
-  exact crashState_clean ((op_crash r1 r2 op).1 _ (reach_take k)) hz
+  exact crashState_clean ((op_crash r1 r2 op).1 _ (reach_take k))
 
 /-- A completed `removeGTE(i)` leaves no entry at an index `≥ i` in the state that later crash
 specifications refer to, so `CrashSpec` forbids their reappearance. -/
@@ -122,55 +137,46 @@ theorem removeGTE_gone {s : SegLog} (h : Inv s) (i j : Nat) (hj : i ≤ j) (hi :
     · rfl
 
 set_option maxRecDepth 200000 in
-/-- `C14_statement` is false on the current code: 1024-byte segments, one 1000-byte entry, then a
-1-byte entry (roll-over); crash after the 4th micro-step of the second append (msync, header,
-msync, create) — the kill image contains a zero-length `1.log` and `Open` fails. -/
-theorem C14_counterexample : ¬ C14_statement := by
-  intro h
-  have hv : ∀ o ∈ [Op.append (List.replicate 1000 0)], o.valid := by
-    intro o ho; simp at ho; subst ho; trivial
-  obtain ⟨s', img', e, _⟩ := h 1024 [.append (List.replicate 1000 0)] (.append [0]) 4 1024
-    (killImg (crashDisk 1024 [.append (List.replicate 1000 0)] (.append [0]) 4))
-    (by omega) (by omega) hv trivial (kill_is_power _)
-  have hre : reopen (killImg (crashDisk 1024 [.append (List.replicate 1000 0)] (.append [0]) 4)) 1024
-      = .error .openFail := by rfl
-  rw [hre] at e
-  cases e
+/-- HISTORICAL (finding `seglog-zero-length-segment-after-create`, repaired in log/util.go): with
+the create sequence the code had before the repair (`oldCreateSteps`: create `<n>.log` with length
+0, then truncate), a crash after its first step leaves a directory on which `Open` fails.  Program:
+1024-byte segments, one committed 1000-byte entry, then the roll-over creates `1.log`. -/
+theorem prefix_create_counterexample :
+    reopen (killImg (runSteps
+      (runBoth (SegLog.empty 1024, (SegLog.empty 1024).toDisk) [.append (List.replicate 1000 0), .commit]).2
+      ((oldCreateSteps 1 1024).take 1))) 1024 = .error .openFail := by rfl
 
 /-! ### Non-vacuity -/
 
 set_option maxRecDepth 200000 in
-/-- The hypotheses of `power_consistent_partial` are met by a non-trivial crash point: same program
-as the counterexample, crash after the 2nd micro-step (header stored, second msync pending): the
-directory is not in the zero-length state, and volatile and durable header differ (1 vs 0), so the
-power-loss set contains images that are not the kill image. -/
+/-- The hypotheses of `C14` are met by a non-trivial crash point: 1024-byte segments, one 1000-byte
+entry, then a 1-byte entry (roll-over); crash after the 2nd micro-step of the second append (header
+stored, second msync pending): volatile and durable header differ (1 vs 0), so the power-loss set
+contains images that are not the kill image. -/
 example :
-    ¬ ZeroLen (crashDisk 1024 [.append (List.replicate 1000 0)] (.append [0]) 2) ∧
     (crashDisk 1024 [.append (List.replicate 1000 0)] (.append [0]) 2).map (fun qf => (qf.1, qf.2.vhdr, qf.2.dhdr))
-      = [(0, 1, 0)] := by
-  constructor
-  · rintro ⟨q, rest, e⟩
-    have : ((crashDisk 1024 [.append (List.replicate 1000 0)] (.append [0]) 2).map (fun qf => qf.2.cap)) =
-        [1024] := by rfl
-    rw [e] at this
-    simp [FileSt.zero] at this
-  · rfl
+      = [(0, 1, 0)] := by rfl
 
 set_option maxRecDepth 200000 in
-/-- ... and one step after the counterexample point (file truncated) the log reopens with the
-committed entry and an empty second segment. -/
+/-- Crash inside the (repaired) create sequence of the same roll-over (micro-steps 4..7 work on
+`1.log.tmp`): the directory still holds `0.log` only and reopens with the committed entry; after
+the rename (8 steps) the empty second segment is there. -/
 example :
-    (match reopen (killImg (crashDisk 1024 [.append (List.replicate 1000 0)] (.append [0]) 5)) 1024 with
+    (crashDisk 1024 [.append (List.replicate 1000 0)] (.append [0]) 6).map (·.1) = [0] ∧
+    (crashDisk 1024 [.append (List.replicate 1000 0)] (.append [0]) 8).map (·.1) = [1, 0] ∧
+    (match reopen (killImg (crashDisk 1024 [.append (List.replicate 1000 0)] (.append [0]) 8)) 1024 with
      | .ok (s', _) => (s'.prevIndex, s'.lastIndex, s'.older.length)
-     | .error _ => (9, 9, 9)) = (0, 1, 1) := by rfl
+     | .error _ => (9, 9, 9)) = (0, 1, 1) := by
+  refine ⟨by rfl, by rfl, by rfl⟩
 
 end Raft.SL
 
+#print axioms Raft.SL.C14
+#print axioms Raft.SL.power_consistent
+#print axioms Raft.SL.kill_consistent
 #print axioms Raft.SL.power_consistent_state
 #print axioms Raft.SL.kill_consistent_state
 #print axioms Raft.SL.rep_preserved
-#print axioms Raft.SL.power_consistent_partial
-#print axioms Raft.SL.kill_consistent_partial
 #print axioms Raft.SL.partial_entry_never_exposed
 #print axioms Raft.SL.removeGTE_gone
-#print axioms Raft.SL.C14_counterexample
+#print axioms Raft.SL.prefix_create_counterexample
